@@ -154,7 +154,15 @@ CrashScenarios == {
   S("k-set3",    L_two,  P1([TC("set", "i1", "done", ABSENT, "") EXCEPT !.title = "renamed", !.body = "text"]), {})
 }
 
-AllScenarios == ClaimScenarios \cup PairScenarios \cup ReaderScenarios \cup CrashScenarios
+\* two writers and up to two kills (MaxCrashes = 2): the second writer meets what the
+\* first left behind (a torn tail, a stale temp file) and may die while repairing it
+CrashScenarios2 == {
+  S("k2-new-new",     L_one,  P2(NewTask, NewTask), {}),
+  S("k2-new-compact", L_hist, P2(NewTask, Compact), {}),
+  S("k2-set-plan",    L_two,  P2(SetState("i1", "done", ""), PlanAB), {})
+}
+
+AllScenarios == ClaimScenarios \cup PairScenarios \cup ReaderScenarios \cup CrashScenarios \cup CrashScenarios2
 ScenarioTable == PrintT("@SC " \o ToJson([s \in {x.name : x \in AllScenarios} |->
                      LET x == CHOOSE y \in AllScenarios : y.name = s IN
                        [init |-> x.init, cmds |-> x.cmds, readers |-> x.readers, nolock |-> x.nolock,
